@@ -37,7 +37,8 @@ META = {
              " Round 13: the jpeg encoding (8-bit, 1 or 3 channels)."
              " Round 14: NaN voxels in a third of the float volumes."
              " Round 16: sub-check unsupported_volume (1-, 2-, 5-, 6-D files)."
-             " Round 17: volume-to-precomputed re-run on the existing dataset with an updated volume, compared with a fresh conversion."),
+             " Round 17: volume-to-precomputed re-run on the existing dataset with an updated volume, compared with a fresh conversion."
+             " Round 18: options written into the description file instead of flags."),
     "trusted_base": ["nibabel (input files)", "vlib/datasets.read_scale"],
     "assumptions": ["RGB inputs and --sharding are outside the all-in-one "
                     "command's options: sharded programs only take part in "
@@ -283,8 +284,24 @@ def check_case(ctx, case, mode="inproc"):
                           mode)
         if rc not in (0, 4):
             ctx.fail("generate-info exited with status %d (%s)" % (rc, err))
+        gsi_opts = info_opts(case)
+        if case["seed"] % 3 == 1 and gsi_opts:
+            # the documented alternative to the flags: the description file
+            # is edited by hand (dataset type at the top level, encoding in
+            # its scale) and generate-scales-info inherits both
+            fr = os.path.join(p2, "info_fullres.json")
+            with open(fr) as f:
+                desc = json.load(f)
+            if case["type"]:
+                desc["type"] = case["type"]
+            if case["encoding"]:
+                desc["scales"][0]["encoding"] = case["encoding"]
+            with open(fr, "w") as f:
+                json.dump(desc, f)
+            gsi_opts = []
+            ctx.count("options_given_in_the_description_file")
         must("gsi", [os.path.join(p2, "info_fullres.json"), sp(p2)]
-             + info_opts(case), "step-by-step")
+             + gsi_opts, "step-by-step")
         v2p_args = [path, sp(p2)] + read_opts(case) + common_opts(case)
         must("v2p", v2p_args, "step-by-step")
         if case["repeat"] in ("v2p", "both"):
